@@ -12,9 +12,10 @@ claim("C06",
        "property oracle on the implementation's outputs (quick: stride sample, thorough: every tick).",
   note="Trusted: Lean kernel, tools/gen_consts.py, harness generators. The enclosure constants and tools/gen_c06_close.py are not trusted (re-certified in the "
        "kernel). base_unit_price_to_tick ends in math.floor(math.log(...)) (libm): its theorem assumes the result is the floor logarithm up to a relative "
-       "perturbation 1e-9 of the argument; that hypothesis is evaluated on every observed call with a 60-digit reference. The eps-robust theorems assume relative "
-       "error <= eps for Decimal /, *, **2, sqrt; CPython's 5e-35 is not proved for the model's round35 (its digit-count estimate is only valid below ~2^150000), "
-       "it is covered by the bit-exact correspondence. Decimal(10**negative) uses libm pow, compared bit-exactly.",
+       "perturbation 1e-9 of the argument; that hypothesis is evaluated on every observed call with a 60-digit reference. The eps-robust theorems need relative "
+       "error <= eps for Decimal /, *, **2, sqrt; this is PROVED for the model's round35/dsqrt35/dpowNat (Proofs/Numerics.lean, eps = 5e-35) for numbers with "
+       "numerator and denominator below 2^150000 (necessary: a kernel-checked counterexample exists beyond), and C06_inverse_x96_round35 instantiates it; that the "
+       "model's arithmetic equals CPython's is covered by the bit-exact correspondence. Decimal(10**negative) uses libm pow, compared bit-exactly.",
   technique="Lean 4 proof (certified interval enclosure + exhaustive kernel sweep + error-propagation calculus over Q) over models regenerated from source constants; differential correspondence with the Python code",
   ref="DESIGN.md §2 C06")
 
